@@ -33,6 +33,12 @@ theorem C01_unescape_escape (s : List Char) : unescape (escape s) = some s := un
 theorem C01_unescape_partial_escape (s : List Char) : unescape (partialEscape s) = some s :=
   unescape_partialEscape s
 
+/-- the reader's `unescape_text` (line-end normalisation of XML 1.0 2.11, then `unescape`) undoes
+    both writers for every text: the writers emit no literal carriage return -/
+theorem C01_unescape_text_escape (s : List Char) :
+    unescapeText (escape s) = some s ∧ unescapeText (partialEscape s) = some s :=
+  ⟨unescapeText_escape s, unescapeText_partialEscape s⟩
+
 /-- Text written to a `<t>` of the shared-string part (any text: padded, blank-only, empty, with line
     breaks) is read back character for character by the shared-string reader (`trim_text(false)`);
     so are the text of a `t="str"` cell and formula text by the sheet reader after fix 3 / fix 4. -/
